@@ -3,12 +3,16 @@
 S1  TLC checks specs/C03/SeqCodec.tla (every single call of the bounded universe: byte table
     = encoder on all 256 bytes, code/symbol round trips, mapper, IUPAC complement involution,
     codon radix numbers, per-frame ORF scan = declarative ORFs, rolling k-mer code = positional
-    radix) and specs/C03/SeqMachine.tla (histories of a Sequence object).
+    radix - as integers for small k, on base-b digits for every k up to the int64 limit -,
+    derive/write/read histories: a new sequence is independent of its source) and
+    specs/C03/SeqMachine.tla (histories of a Sequence object and the sequence it was made from).
 S2  every (case, result) pair dumped by TLC and every transition of the machine's state graph
-    is executed against the real classes.
+    is executed against the real classes; indices are handed over in every form the
+    specification enumerates (Python int, numpy scalars of all widths, lists, ndarrays).
 S3  seeded random histories (random alphabets of hashables / letters, longer sequences, code
-    arrays of several dtypes with out-of-range entries, random codon tables, k up to 6 with
-    random spacings) are recorded and re-computed event by event by TLC (specs/C03/Trace.tla).
+    arrays of several dtypes with out-of-range entries, random codon tables, any k with random
+    spacings, random index forms) are recorded and re-computed event by event by TLC
+    (specs/C03/Trace.tla).
 """
 
 from __future__ import annotations
@@ -16,6 +20,7 @@ from __future__ import annotations
 import json
 import os
 import random
+import zlib
 
 PROPERTY = "C03"
 _G = None
@@ -76,19 +81,78 @@ def akind(alph_syms, hint=None):
     return "generic" if (len(alph_syms) == 0 or max(alph_syms) < 32) else "letter"
 
 
+_NPT = {"i8": "int8", "i16": "int16", "i32": "int32", "i64": "int64",
+        "u8": "uint8", "u16": "uint16", "u32": "uint32", "u64": "uint64"}
+INT_FORMS = ("py",) + tuple(_NPT)
+ARR_FORMS = ("list",) + tuple(_NPT)
+
+
+def int_form(k, form):
+    """An integer index in one of the forms numpy accepts (SeqCodecOps.IntForms)."""
+    np = _np()
+    k = int(k)
+    if form == "py":
+        return k
+    if form not in _NPT:
+        raise DriverError(f"unknown integer form {form!r}")
+    if form[0] == "u" and k < 0:
+        raise DriverError(f"negative index {k} in unsigned form {form} (outside Dom_Form)")
+    return getattr(np, _NPT[form])(k)
+
+
 def to_index(x):
+    """Index object <<kind, payload, form>> of the specification -> the real index."""
     np = _np()
     kind, p = x[0], x[1]
+    form = x[2] if len(x) > 2 else None
     if kind == "int":
-        return int(p[0])
+        return int_form(p[0], form or "py")
     if kind == "slice":
-        a, b, c = [None if len(o) == 0 else int(o[0]) for o in p]
+        if form not in (None, "py", "np"):
+            raise DriverError(f"unknown slice form {form!r}")
+        conv = np.int64 if form == "np" else int
+        a, b, c = [None if len(o) == 0 else conv(int(o[0])) for o in p]
         return slice(a, b, c)
     if kind == "mask":
+        if form == "list":
+            if not p:
+                raise DriverError("empty list as a mask (outside Dom_Form)")
+            return [bool(v) for v in p]
+        if form not in (None, "np"):
+            raise DriverError(f"unknown mask form {form!r}")
         return np.array([bool(v) for v in p], dtype=bool)
     if kind == "arr":
-        return np.array([int(v) for v in p], dtype=np.int64)
+        if form == "list":
+            if not p:
+                raise DriverError("empty list as an index array (outside Dom_Form)")
+            return [int(v) for v in p]
+        if form is not None and form not in _NPT:
+            raise DriverError(f"unknown array form {form!r}")
+        if form is not None and form[0] == "u" and any(int(v) < 0 for v in p):
+            raise DriverError("negative index in an unsigned index array (outside Dom_Form)")
+        return np.array([int(v) for v in p], dtype=_NPT[form or "i64"])
     raise DriverError(kind)
+
+
+def to_digits(v, b, k):
+    """An integer as its base-b digits, most significant first, at least k of them; a negative
+    value gets a leading -1 (the specification never expects one)."""
+    v, b = int(v), int(b)
+    if v < 0:
+        return [-1] + to_digits(-v, b, k)
+    d = []
+    while v:
+        d.append(v % b)
+        v //= b
+    d += [0] * (int(k) - len(d))
+    return d[::-1]
+
+
+def from_digits(d, b):
+    v = 0
+    for x in d:
+        v = v * int(b) + int(x)
+    return v
 
 
 # --------------------------------------------------------------------------- sequence objects
@@ -157,6 +221,7 @@ def mk_table(aa, starts):
 
 
 _BIG = {}
+_BASE = {}
 
 
 def _big_alph(n):
@@ -170,9 +235,10 @@ def base_alph(b):
     bs = _bs()
     if b == 4:
         return bs.NucleotideSequence.alphabet_unamb
-    if b <= 94:
-        return bs.LetterAlphabet([chr(33 + i) for i in range(b)])
-    return bs.Alphabet(list(range(b)))
+    if b not in _BASE:
+        _BASE[b] = (bs.LetterAlphabet([chr(33 + i) for i in range(b)]) if b <= 94
+                    else bs.Alphabet(list(range(b))))
+    return _BASE[b]
 
 
 def mk_kmer_alph(b, k, sp, variant=0):
@@ -212,7 +278,31 @@ def apply_real(obj, op, a, tables=None, variant=0):
                 out = sym_int("generic" if k == "general" else "letter", r)
         elif op == "setsym":
             k = seq_kind(obj)
-            obj[int(a[0])] = sym_obj("generic" if k == "general" else "letter", a[1])
+            obj[int_form(a[0], a[2] if len(a) > 2 else "py")] = sym_obj("generic" if k == "general" else "letter", a[1])
+        elif op == "indep":
+            # a history of three calls: derive a new sequence, write into one of the objects, read both
+            dop, da, side, w = a
+            k = seq_kind(obj)
+            symk = "generic" if k == "general" else "letter"
+            other = None
+            if dop == "copy":
+                res = obj.copy()
+            elif dop == "reverse":
+                res = obj.reverse()
+            elif dop == "complement":
+                res = obj.complement()
+            elif dop == "add":
+                other = mk_seq_syms(k, da[0], da[1])
+                res = obj + other
+            else:
+                raise DriverError(f"unknown derive operation {dop}")
+            if res is obj or (other is not None and res is other):
+                detail = f"{dop} returned one of its operands"
+            target = {"res": res, "src": obj, "other": other}[side]
+            if target is None:
+                raise DriverError("side 'other' without another operand (outside Dom_Indep)")
+            target[int_form(w[0], w[2] if len(w) > 2 else "py")] = sym_obj(symk, w[1])
+            out = {"src": _symbols_of(obj), "res": _symbols_of(res)}
         elif op == "setmany":
             k = seq_kind(obj)
             al = proj_alph(obj.get_alphabet())
@@ -365,6 +455,35 @@ def apply_real(obj, op, a, tables=None, variant=0):
             al, k, n = a
             ka = KmerAlphabet(mk_alph("letter", al), int(k))
             out = [sym_int("letter", x) for x in ka.decode(int(n))]
+        elif op == "fuse_d":
+            b, k, km = a
+            ka = mk_kmer_alph(b, k, [])
+            out = to_digits(ka.fuse(np.array([int(x) for x in km], dtype=np.int64)), b, k)
+        elif op == "split_d":
+            b, k, dg = a
+            ka = mk_kmer_alph(b, k, [])
+            n = from_digits(dg, b)
+            out = [int(x) for x in np.asarray(ka.split(np.int64(n) if variant % 2 else n)).tolist()]
+        elif op == "kencode_d":
+            from biotite.sequence.align import KmerAlphabet
+
+            al, k, syms = a
+            ka = KmerAlphabet(mk_alph("letter", al), int(k))
+            chars = [chr(x) for x in syms]
+            out = to_digits(ka.encode("".join(chars) if variant % 2 == 0 else chars), len(al), k)
+        elif op == "kdecode_d":
+            from biotite.sequence.align import KmerAlphabet
+
+            al, k, dg = a
+            ka = KmerAlphabet(mk_alph("letter", al), int(k))
+            out = [sym_int("letter", x) for x in ka.decode(from_digits(dg, len(al)))]
+        elif op == "kmers_d":
+            b, k, sp, codes = a
+            ka = mk_kmer_alph(b, k, sp, variant)
+            mx = max([int(x) for x in codes], default=0)
+            dts = [d for d, lim in zip(_DT, (255, 65535, 2 ** 32 - 1, 2 ** 63)) if mx <= lim]
+            arr = np.array([int(x) for x in codes], dtype=dts[variant % len(dts)])
+            out = [to_digits(x, b, k) for x in ka.create_kmers(arr).tolist()]
         elif op == "kmers":
             b, k, sp, codes = a
             ka = mk_kmer_alph(b, k, sp, variant)
@@ -386,7 +505,8 @@ def apply_real(obj, op, a, tables=None, variant=0):
 
 
 _HAS_OUT = {"str", "len", "eq", "copy", "isvalid", "encode", "decode", "encode_multiple", "decode_multiple",
-            "extends", "map", "translate", "fuse", "split", "kmers", "table", "kencode", "kdecode", "big_seq"}
+            "extends", "map", "translate", "fuse", "split", "kmers", "table", "kencode", "kdecode", "big_seq",
+            "indep", "fuse_d", "split_d", "kencode_d", "kdecode_d", "kmers_d"}
 
 
 def oc_ok(exp, obs):
@@ -465,7 +585,6 @@ def exec_cases(item):
     tables = item["tables"]
     mism, n, ops, ocs, nontriv = [], 0, {}, {}, 0
     cur = []
-    k0 = item["beg"]
 
     def flush():
         nonlocal n, nontriv
@@ -488,7 +607,10 @@ def exec_cases(item):
             exp.update(pre)
         if r["out"] not in ([], {}) or r["oc"] != "ok" or r["codes"] != c["codes"]:
             nontriv += 1
-        variant = (k0 + n) % 60
+        # which of the equivalent argument shapes (str/bytes/list/ndarray, dtypes) the case is run with:
+        # a function of the case itself, not of its position in the dump (the dump order depends on
+        # TLC's worker scheduling)
+        variant = zlib.crc32(json.dumps([c["op"], c["a"], pre], sort_keys=True).encode()) % 60
         progress({"op": c["op"], "a": c["a"], "pre": pre})
         obj = mk_seq(pre["kind"], pre["alph"], pre["codes"])
         _o, obs = _observe(obj, c["op"], c["a"], tables, variant)
@@ -516,6 +638,40 @@ def exec_paths(batch):
     return {"mismatch": mism, "steps": steps}
 
 
+_FRESH = ("reverse", "complement", "add")      # SeqMachine.Fresh: calls that return a new sequence
+
+
+def _proj_held(held):
+    if held is None:
+        return []
+    try:
+        p = project(held)
+    except DriverError:
+        raise
+    except Exception as e:
+        return [{"alph": [], "codes": [], "broken": f"{type(e).__name__}: {e}"[:120]}]
+    return [{"alph": p["alph"], "codes": p["codes"]}]
+
+
+def _machine_step(obj, held, op, a, variant):
+    """One call of SeqMachine on the two live objects -> (object at hand, held object, observation)."""
+    if op == "swap":
+        if held is None:
+            raise DriverError("swap without a held sequence")
+        obj2, held2 = held, obj
+        _x, obs = _observe(obj2, "len", [], None, variant)
+        obs["out"] = []
+    elif op == "takecopy":
+        held2 = obj
+        obj2, obs = _observe(obj.copy(), "len", [], None, variant)
+        obs["out"] = []
+    else:
+        obj2, obs = _observe(obj, op, a, None, variant)
+        held2 = obj if (op in _FRESH and obs["oc"] == "ok") else held
+    obs["held"] = _proj_held(held2)
+    return obj2, held2, obs
+
+
 def exec_path(item):
     from harness.tlabind.pool import progress
 
@@ -523,6 +679,7 @@ def exec_path(item):
     states, labels = G["states"], G["labels"]
     st = states[item["init"]]
     obj = mk_seq(st["kind"], st["alph"], st["codes"])
+    held = None                     # the sequence the one at hand was derived from (SeqMachine.held)
     pre = st
     mism, nsteps, hist = [], 0, []
     for li, dst in item["steps"]:
@@ -533,15 +690,18 @@ def exec_path(item):
         progress({"op": op, "a": a, "pre": p3})
         nsteps += 1
         variant = (li + nsteps) % 60
-        obj2, obs = _observe(obj, op, a, None, variant)
+        obj2, held2, obs = _machine_step(obj, held, op, a, variant)
         bad = compare(op, a, exp, obs)
+        if obs["held"] != exp["held"]:
+            bad.append("held")
         if bad:
             mism.append({"kind": "step", "op": op, "a": a, "pre": p3, "bad": bad, "variant": variant,
-                         "expected": {k: exp[k] for k in ("oc", "kind", "alph", "codes", "out")},
+                         "expected": {k: exp[k] for k in ("oc", "kind", "alph", "codes", "out", "held")},
                          "observed": obs, "history": list(hist),
                          "init": {k: st[k] for k in ("kind", "alph", "codes")}})
             obj2 = mk_seq(exp["kind"], exp["alph"], exp["codes"])       # resynchronise
-        obj = obj2
+            held2 = mk_seq(exp["kind"], exp["held"][0]["alph"], exp["held"][0]["codes"]) if exp["held"] else None
+        obj, held = obj2, held2
         pre = exp
     return {"mismatch": mism, "steps": nsteps}
 
@@ -555,22 +715,37 @@ def _rand_alph(rng, kind):
     return rng.sample(range(33, 127), n)
 
 
+def _rand_int_form(rng, k):
+    """A form admissible for the integer k (SeqCodecOps.Dom_Form): unsigned forms hold no negative value."""
+    return rng.choice([f for f in INT_FORMS if k >= 0 or f[0] != "u"])
+
+
 def _rand_index(rng, n):
     k = rng.random()
     if k < 0.3:
-        return ["int", [rng.randint(-n - 2, n + 1)]]
+        v = rng.randint(-n - 2, n + 1)
+        return ["int", [v], _rand_int_form(rng, v)]
     if k < 0.6:
         def c():
             return [] if rng.random() < 0.3 else [rng.randint(-n - 2, n + 2)]
         step = [] if rng.random() < 0.5 else [rng.choice([-3, -2, -1, 1, 2, 3])]
-        return ["slice", [c(), c(), step]]
+        return ["slice", [c(), c(), step], rng.choice(["py", "np"])]
     if k < 0.8:
-        return ["mask", [rng.random() < 0.5 for _ in range(n)]]
+        return ["mask", [rng.random() < 0.5 for _ in range(n)], rng.choice(["np", "list"] if n else ["np"])]
     m = rng.randint(0, min(n, 6)) if n else 0
     arr = [rng.randint(-n, n - 1) for _ in range(m)] if n else []
     if rng.random() < 0.15:
         arr.append(n + rng.randint(0, 2))
-    return ["arr", arr]
+    forms = [f for f in ARR_FORMS if (f != "list" or arr) and (f[0] != "u" or all(v >= 0 for v in arr))]
+    return ["arr", arr, rng.choice(forms)]
+
+
+def _kmer_bits(b):
+    """SeqCodecOps.Bits: the smallest t with 2^t >= b."""
+    t = 1
+    while 2 ** t < b:
+        t += 1
+    return t
 
 
 def _resolve_len(idx, n):
@@ -616,17 +791,47 @@ def gen_trace(item):
             if bad_sym is None:        # the alphabet holds every hashable we have: no foreign symbol left
                 bad_sym = al[0]
             op = rng.choice(["str", "len", "get", "get", "get", "setsym", "setsym", "setmany", "add", "reverse",
-                             "eq", "copy", "isvalid", "setcode", "construct"]
+                             "eq", "copy", "isvalid", "setcode", "construct", "indep", "indep"]
                             + (["complement"] * 2 if kind == "nuc" else [])
                             + ["encode_multiple", "decode_multiple", "decode", "encode", "extends", "map",
                                "translate", "translate", "table", "fuse", "split", "kmers", "kmers",
-                               "kencode", "kdecode"])
+                               "kencode", "kdecode", "kmers_d", "kmers_d", "fuse_d", "split_d", "kencode_d",
+                               "kdecode_d"])
             if op in ("str", "len", "reverse", "copy", "isvalid", "complement"):
                 a = []
             elif op == "get":
                 a = [_rand_index(rng, n)]
             elif op == "setsym":
-                a = [rng.randint(-n - 1, n), bad_sym if rng.random() < 0.15 else rng.choice(al)]
+                v = rng.randint(-n - 1, n)
+                a = [v, bad_sym if rng.random() < 0.15 else rng.choice(al), _rand_int_form(rng, v)]
+            elif op == "indep":
+                # derive a new sequence, write into one of the objects, read both (SeqCodecOps.Indep)
+                dop = rng.choice(["copy", "reverse", "add"] + (["complement"] * 2 if kind == "nuc" else []))
+                da, wal, olen = [], al, 0
+                if dop == "add":
+                    if n > 3 * maxlen:
+                        continue
+                    r = rng.random()
+                    if kind == "general" and r < 0.3 and bad_sym not in al:
+                        al2 = al + [bad_sym]
+                    elif kind == "general" and r < 0.5 and len(al) > 1:
+                        al2 = al[:-1]
+                    elif kind == "nuc" and r < 0.4:
+                        al2 = NUC_AMB if al == NUC_UNAMB else NUC_UNAMB
+                    else:
+                        al2 = al
+                    olen = rng.choice([0, 0, 1, 2, rng.randint(0, 5)])
+                    da = [al2, [rng.choice(al2) for _ in range(olen)]]
+                side = rng.choice(["res", "res", "src"] + (["other"] if dop == "add" else []))
+                if side == "res":
+                    wlen = n + olen
+                    wal = al if len(al) >= len(da[0] if da else al) else da[0]
+                elif side == "other":
+                    wlen, wal = olen, da[0]
+                else:
+                    wlen = n
+                v = rng.randint(-wlen, wlen)            # wlen itself: refused (IndexError)
+                a = [dop, da, side, [v, bad_sym if rng.random() < 0.08 else rng.choice(wal), _rand_int_form(rng, v)]]
             elif op == "setmany":
                 idx = _rand_index(rng, n)
                 if idx[0] == "int":
@@ -728,6 +933,59 @@ def gen_trace(item):
                     a = [pal, k, s]
                 else:
                     a = [pal, k, rng.choice([rng.randrange(len(pal) ** k), len(pal) ** k - 1, len(pal) ** k, -1])]
+            elif op in ("kencode_d", "kdecode_d"):
+                pal = _rand_alph(rng, "letter")
+                k = rng.randint(2, 62 // _kmer_bits(len(pal))) if len(pal) > 1 else rng.randint(2, 40)
+                if len(pal) == 1:
+                    pal = pal + [x for x in range(33, 127) if x not in pal][:1]
+                    k = rng.randint(2, 62)
+                if op == "kencode_d":
+                    s = [rng.choice(pal) for _ in range(k)]
+                    r = rng.random()
+                    if r < 0.15:
+                        s[rng.randrange(k)] = rng.choice([x for x in range(33, 127) if x not in pal] or [pal[0]])
+                    elif r < 0.25:
+                        s = s + [pal[0]]
+                    a = [pal, k, s]
+                else:
+                    dg = [rng.randrange(len(pal)) for _ in range(k)]
+                    if rng.random() < 0.15:
+                        dg = [1] + [0] * k
+                    a = [pal, k, dg]
+            elif op in ("fuse_d", "split_d", "kmers_d"):
+                b = rng.choice([2, 3, 4, 4, 5, 20, 24, 24, 94, 300])
+                k = rng.randint(2, 62 // _kmer_bits(b))
+                if op == "fuse_d":
+                    km = [rng.randrange(b) for _ in range(k)]
+                    r = rng.random()
+                    if r < 0.15:
+                        km[rng.randrange(k)] = rng.choice([b + 1, b + 2])    # code b itself: the known finding of fuse
+                    elif r < 0.25:
+                        km = km[:-1]
+                    a = [b, k, km]
+                elif op == "split_d":
+                    dg = [rng.randrange(b) for _ in range(k)]
+                    r = rng.random()
+                    if r < 0.15:
+                        dg = [1] + [0] * k
+                    elif r < 0.3:
+                        dg = [b - 1] * k
+                    a = [b, k, dg]
+                else:
+                    if rng.random() < 0.6:
+                        sp = []
+                        span = k
+                    else:
+                        span = k + rng.randint(1, 4)
+                        off = sorted(rng.sample(range(span), k))
+                        sp = [off]
+                        span = off[-1] + 1
+                    codes = [rng.randrange(b) for _ in range(rng.randint(max(0, span - 1), span + 12))]
+                    offs = sp[0] if sp else list(range(k))
+                    read = sorted({i + o for i in range(len(codes) - span + 1) for o in offs})
+                    if read and rng.random() < 0.15:
+                        codes[rng.choice(read)] = rng.choice([b, b + 3])
+                    a = [b, k, sp, codes]
             elif op in ("fuse", "split", "kmers"):
                 b = rng.choice([2, 3, 4, 4, 5, 20, 24])
                 k = rng.randint(2, 6)
@@ -838,7 +1096,8 @@ def _read_tables(path):
 _KEEP = ("op", "a", "oc", "kind", "alph", "codes", "out")
 _NEED_OPS = {"construct", "str", "len", "get", "setsym", "setmany", "add", "reverse", "eq", "copy", "isvalid",
              "complement", "setcode", "encode", "decode", "encode_multiple", "decode_multiple", "extends",
-             "map", "translate", "table", "fuse", "split", "kmers", "kencode", "kdecode", "big_seq"}
+             "map", "translate", "table", "fuse", "split", "kmers", "kencode", "kdecode", "big_seq",
+             "indep", "fuse_d", "split_d", "kencode_d", "kdecode_d", "kmers_d"}
 
 
 def run(ctx):
@@ -858,7 +1117,14 @@ def run(ctx):
         "assignment through a slice/mask uses a value of exactly the selected length",
         "codon tables are total functions 64 codons -> 24 amino-acid codes given explicitly with >= 1 start codon "
         "(the default table's content is not part of the property); DNA is over the unambiguous alphabet",
-        "k-mer universes with len(base)^k < 10^8 (TLC integers are 32 bit); spaced models are sorted distinct offsets",
+        "k-mer codes as integers only where len(base)^k < 10^8 (TLC integers are 32 bit); beyond that codes are "
+        "compared through their base-b digits (digit form), for every k with k * bitlength(len(base)) <= 62 "
+        "(Dom_KmerWidth: the codes are int64); spaced models are sorted distinct offsets",
+        "Dom_Form: an index is handed over as a Python int / numpy integer scalar (int8..int64, uint8..uint64; "
+        "unsigned forms for non-negative values), a non-empty Python list or an integer ndarray of those dtypes, "
+        "a bool ndarray or a non-empty list of bools, a slice with Python or numpy integer bounds",
+        "independence under later writes is asserted for copy(), reverse(), complement() and + (and the other "
+        "operand of +); whether a sub-sequence obtained by indexing shares memory with its source is left open",
         "create_kmers must raise AlphabetError only for invalid codes at positions that are read by some k-mer",
         "exhaustive model: DNA strings <= 5 (quick) / 7 (thorough) through translate and create_kmers, objects of "
         "length <= 3, alphabets of 1, 2, 4, 15, 24 and 94 letters; beyond that only recorded traces",
@@ -914,7 +1180,8 @@ def run(ctx):
         c = labels[lab_ix[lab]]
         ops_seen[c[1]] = ops_seen.get(c[1], 0) + 1
     ctx.cov["transitions_per_op"] = ops_seen
-    needm = {"str", "len", "reverse", "copy", "isvalid", "get", "setsym", "setmany", "add", "eq", "complement"}
+    needm = {"str", "len", "reverse", "copy", "isvalid", "get", "setsym", "setmany", "add", "eq", "complement",
+             "takecopy", "swap"}
     if needm - set(ops_seen):
         raise Vacuity(f"machine calls never taken: {sorted(needm - set(ops_seen))}")
     ids = {nid: k for k, nid in enumerate(g.state_text)}
@@ -923,7 +1190,7 @@ def run(ctx):
     for nid, k in ids.items():
         st = g.state(nid)
         states[k] = {"kind": st["kind"], "alph": to_py(st["alph"]), "codes": to_py(st["codes"]),
-                     "oc": st["oc"], "out": to_py(st["out"])}
+                     "oc": st["oc"], "out": to_py(st["out"]), "held": to_py(st["held"])}
         socs[st["oc"]] = socs.get(st["oc"], 0) + 1
     if not {"ok", "AlphabetError", "IndexError"} <= set(socs):
         raise Vacuity(f"machine outcomes not all reached: {socs}")
@@ -968,15 +1235,37 @@ def run(ctx):
             traces.append(r["events"])
     ctx.log(f"S3: {len(traces)} traces recorded")
     validate_traces(ctx, traces)
+    # the recorded histories must reach the classes the exhaustive stage is bounded on
+    # (counted on the calls that were made, whatever their outcome)
+    wide = sum(1 for t in traces for e in t
+               if e["op"] == "kmers_d" and e["a"][2] == [] and len(e["a"][3]) - int(e["a"][1]) >= 1
+               and all(x < int(e["a"][0]) for x in e["a"][3])
+               and int(e["a"][0]) ** (int(e["a"][1]) - 1) >= 2 ** 32)
+    npidx = sum(1 for t in traces for e in t
+                if (e["op"] == "setsym" and e["a"][2] != "py" and -len(e["pre"]["codes"]) <= e["a"][0] < len(e["pre"]["codes"])
+                    and e["a"][1] in e["pre"]["alph"]))
+    indep = sum(1 for t in traces for e in t if e["op"] == "indep" and len(e["pre"]["codes"]) >= 1)
+    ctx.cov.update({"s3_wide_rolling_kmers": wide, "s3_numpy_int_assignments": npidx, "s3_indep_histories": indep})
+    if not (wide and npidx and indep):
+        raise Vacuity(f"S3 never reached: wide k-mer codes {wide}, numpy-integer assignments {npidx}, "
+                      f"derive-write-read histories {indep}")
 
     def corrupt(tr):
         for e in tr[1:]:
-            if e["oc"] == "ok" and e["codes"] and e["op"] in ("reverse", "complement", "get", "setsym", "add", "setmany"):
-                e["codes"][0] = (e["codes"][0] + 1) % max(2, len(e["alph"]))
+            # (the corrupted code stays a valid code: later events are judged from this logged state)
+            if (e["oc"] == "ok" and e["codes"] and len(e["alph"]) >= 2
+                    and e["op"] in ("reverse", "complement", "get", "setsym", "add", "setmany")):
+                e["codes"][0] = (e["codes"][0] + 1) % len(e["alph"])
                 return True
         for e in tr[1:]:
             if e["oc"] == "ok" and e["op"] in ("encode_multiple", "kmers", "map") and e["out"]:
                 e["out"][0] = e["out"][0] + 1
+                return True
+            if e["oc"] == "ok" and e["op"] == "kmers_d" and e["out"]:
+                e["out"][-1][-1] = (e["out"][-1][-1] + 1) % int(e["a"][0])      # one digit of the last code
+                return True
+            if e["oc"] == "ok" and e["op"] == "indep" and e["out"]["src"] and len(e["alph"]) >= 2:
+                e["out"]["src"][0] = next(s for s in e["alph"] if s != e["out"]["src"][0])   # as if the source had changed
                 return True
         return False
 
@@ -1000,6 +1289,15 @@ def probe_diagnostics(_item):
         notes.append(f"Sequence.code = [256, 1] is cast to uint8 silently: str() = {str(s)!r}")
     except Exception as e:
         notes.append(f"Sequence.code = [256, 1] raises {type(e).__name__}")
+    try:
+        s = bs.NucleotideSequence("ACGT")
+        sub = s[0:2]
+        sub[0] = "T"
+        if str(s) != "ACGT":
+            notes.append(f"a slice shares memory with its source (numpy view): s[0:2][0] = 'T' turns s into {str(s)!r}; "
+                         "left open by the specification (indexing is no derive operation of Indep)")
+    except Exception as e:
+        notes.append(f"slice sharing probe raised {type(e).__name__}")
     try:
         from biotite.sequence.align import KmerAlphabet
 
@@ -1049,6 +1347,18 @@ def validate_traces(ctx, traces):
 def replay(record):
     if record.get("kind") not in ("case", "step", "event"):
         return {"error": "record kind not replayable", "record": record}
+    if record["kind"] == "step" and record.get("history") and record.get("init"):
+        # a transition of the two-object machine: re-run the whole history from the initial object
+        ini = record["init"]
+        obj, held, obs = mk_seq(ini["kind"], ini["alph"], ini["codes"]), None, None
+        for op, a in record["history"]:
+            obj, held, obs = _machine_step(obj, held, op, a, record.get("variant", 0))
+        exp = dict(record["expected"])
+        bad = compare(record["op"], record["a"], exp, obs)
+        if "held" in exp and obs["held"] != exp["held"]:
+            bad.append("held")
+        return {"history": record["history"], "init": ini, "expected": exp, "observed": obs,
+                "bad": bad, "mismatch": bool(bad)}
     pre = record["pre"]
     obj = mk_seq(pre["kind"], pre["alph"], pre["codes"])
     tables = None
@@ -1063,6 +1373,6 @@ def replay(record):
 
 MANIFEST = {
     "technique": "TLA+ model of alphabets, sequence objects, complement, codon tables/translation and k-mer codes (specs/C03) model-checked by TLC; every enumerated call and every transition of the sequence-object machine executed against the real classes; recorded random histories re-computed by TLC",
-    "level_text": "TLC enumerates every single call on alphabets of 1, 2, 4, 15, 24 and 94 letters (all 256 byte values through the encoder, codes around every range border incl. 255/256) and on alphabets of arbitrary hashables, the mapper between every compatible pair, all DNA strings up to length 5 (7 in the thorough tier) through translate (complete and ORF mode, 2 codon tables x 3 start sets x met_start) and create_kmers (bases 3 and 4, k 2..3, contiguous and spaced), all k-mers incl. invalid codes through fuse/split, and sequence objects (general, nucleotide unambiguous/ambiguous, protein) of length <= 3 through construction, str, every index kind, assignment, +, reverse, ==, copy, complement; it proves that the code-shaped byte table, complement mapper, radix number, per-frame ORF scan and rolling k-mer code equal the declarative definitions. Every (call, result) pair and every transition of a 3-call object machine is executed against the real classes; random alphabets, longer sequences, several dtypes, random codon tables and k <= 6 are covered by recorded histories that TLC re-computes.",
-    "level_note": "Bounded as stated; alphabets needing codes beyond 32 bit, the content of the built-in codon tables, lower-case/3-letter input normalisation, PositionalSequence and symbol frequency are not decided. Defects in codec.pyx / kmeralphabet.pyx cannot be repaired here (no Cython) and are recorded as known findings. Trusted: TLC, the TLA+ value parser, numpy, the projection through get_symbols()/.code.",
+    "level_text": "TLC enumerates every single call on alphabets of 1, 2, 4, 15, 24 and 94 letters (all 256 byte values through the encoder, codes around every range border incl. 255/256) and on alphabets of arbitrary hashables, the mapper between every compatible pair, all DNA strings up to length 5 (7 in the thorough tier) through translate (complete and ORF mode, 2 codon tables x 3 start sets x met_start) and create_kmers (bases 3 and 4, k 2..3, contiguous and spaced), all k-mers incl. invalid codes through fuse/split, every (base, k) with base in {2,4,5,24,94} (thorough: also 3,20,200,1000) and k up to the int64 limit (k*bitlength(base) <= 62) through fuse/split/encode/decode/create_kmers on pattern sequences with the codes compared digit by digit, and sequence objects (general, nucleotide unambiguous/ambiguous, protein) of length <= 3 through construction, str, every index kind in every form numpy accepts (Python int, numpy integer scalars int8..uint64, lists, integer/bool ndarrays), assignment, +, reverse, ==, copy, complement, and derive-write-read histories (copy/reverse/complement/+ then an assignment to the result, the source or the other operand: only the written object changes); it proves that the code-shaped byte table, complement mapper, radix number, per-frame ORF scan and rolling k-mer code equal the declarative definitions. Every (call, result) pair and every transition of a 3-call machine of two live objects (the sequence at hand and the one it was derived from, lengths 0, 1 and 3) is executed against the real classes; random alphabets, longer sequences, several dtypes, random codon tables and random k are covered by recorded histories that TLC re-computes.",
+    "level_note": "Bounded as stated; k-mer codes beyond int64, memory sharing between a sub-sequence obtained by indexing and its source, the content of the built-in codon tables, lower-case/3-letter input normalisation, PositionalSequence and symbol frequency are not decided. Defects in codec.pyx / kmeralphabet.pyx cannot be repaired here (no Cython) and are recorded as known findings. Trusted: TLC, the TLA+ value parser, numpy, the projection through get_symbols()/.code.",
 }
